@@ -105,7 +105,7 @@ func bfsPool(run *ev.Run, p *pool.Pool, sys string, arg interface{}, maxDepth, s
 			}
 			seen[r.Key] = struct{}{}
 			st.Reps = append(st.Reps, hists[i])
-			if len(seen)%97 == 1 {
+			if len(seen) <= 4 || len(seen)%97 == 1 {
 				run.Sample(strings.Join(hists[i], " ; "))
 			}
 			if r.Expand {
